@@ -76,8 +76,15 @@ def build_query(rnd, endpoint):
         vals = {'lat1': c['lat1'], 'lon1': c['lon1'], 'azimuth1to2': c['az']}
     # round to typed-looking values, keep every field distinct
     q = {}
+    lattice = rnd.random() < 0.35
     for k, v in vals.items():
         v = round(v, rnd.choice([6, 9, 11]))
+        if lattice:
+            # typed-looking values: whole minutes or whole seconds (HP numerals such as 37.30 sit just below their float)
+            step = rnd.choice([60, 1, 3600])
+            v = round(v * 3600 / step) * step / 3600.0
+            if k.startswith('lat'):
+                v = max(-89.0, min(89.0, v))
         q[k] = hpval(v) if ft == 'dms' else v
     if endpoint == 'vincdir':
         q['ell_dist'] = round(c['s'], 3)
